@@ -1,5 +1,6 @@
 SPECIFICATION Spec
 CONSTANTS
+  LongFrames = {}
   Accounts = {1}
   Keys = {1}
   MaxDepth = 4
